@@ -459,8 +459,8 @@ func (v *Verifier) findFunc(pkgRel, key string) []*ssa.Function {
 		if pkg == nil || v.relPkg(pkg) != pkgRel {
 			continue
 		}
-		if fn.Synthetic != "" && fn.Origin() == nil {
-			continue
+		if fn.Synthetic != "" && fn.Origin() == nil && !(key == "init" && fn.Name() == "init") {
+			continue // (the package initializer `init` is the one synthetic function that can be under contract)
 		}
 		if v.funcRel(fn) == key {
 			// generic origin bodies are verified through their instances
